@@ -29,7 +29,8 @@ CHECKS["C12"] = dict(
     fuzz=dict(runs=8000000, maxlen=400),
     rule="Case = generated history (<=50 ops) of add / update / remove / clear / sample(r) on ompl::PDF<int>, optionally starting from the "
          "vector constructor; weights from {0, small ints, 0.1-style non-representables, 1e-3, uniform reals} and in 19% of cases also "
-         "1e12 / 1e-12; r from {0, 1, uniform, a cumulative boundary +-1 ulp}. Oracle = exact (long double) prefix-sum model in the "
+         "1e12 / 1e-12, every weight of a case times one power of two from 2^{0 (75%), -60, -500, 60, 400} (changes no rounding: same exact oracle at "
+         "every magnitude); r from {0, 1, uniform, a cumulative boundary +-1 ulp}. Oracle = exact (long double) prefix-sum model in the "
          "structure's own element order (swap-with-last rule), handle/weight/size after every op, returned reference must be a stored "
          "element. Non-trivial = a sample() taken after a remove() of a non-last element with >=3 elements left; distinct = distinct "
          "consumed choice-byte prefix.",
@@ -133,7 +134,8 @@ CHECKS["C06"]["rule"] = (
     "Torus, Sphere(radius), Mobius, KleinBottle, Dubins(+symmetric), ReedsShepp, Wrapper(any), nested weighted Compound (<=4 components, "
     "weights {1, 7.5, 1e-3, 0}, depth<=3)} x triple (a; b related to a; c related to a or b) with relation classes {independent, identical, "
     "1-ulp adjacent, nearly coincident 1e-12..1e-4, antipodal / seam-crossing (-q, 180 deg, angles on both sides of +-pi), one leaf differs}. "
-    "Oracle: finite, >=0, d(s,s)=0, positivity for separated unequal states, <= getMaximumExtent(), symmetry if claimed, triangle if "
+    "Oracle: finite, >=0, d(s,s)=0, positivity for separated unequal states and - in spaces built only from R^n, SO2 (off the +-pi seam), SO3, time, "
+    "discrete and positively weighted compounds - bit-exactly: distance == 0 only for states the space's own equalStates() accepts, <= getMaximumExtent(), symmetry if claimed, triangle if "
     "isMetricSpace(), weighted-sum law at every compound node. Non-trivial = at least one of the two relations is not 'independent'; "
     "distinct = consumed byte prefix.")
 
@@ -166,7 +168,8 @@ CHECKS["C08"] = dict(
          "(36%) default / subspace / wrapper state sampler: uniform, near and Gaussian around an in-bounds centre with distance or sigma in "
          "{0, 1e-12..1e-6, moderate, extent, 50..200 x extent} -> finite, satisfiesBounds, untouched components bit-identical; (28%) valid-state "
          "sampler {uniform, gaussian, obstacle-based, bridge-test, max-clearance, min-clearance} x predicate {all valid, stripes, half space, "
-         "small island} on the first real coordinate x attempts 1..40 x sample / sampleNear -> success implies satisfiesBounds and predicate "
+         "small island} on the first real coordinate x (clearance samplers) what clearance() reports {signed distance, unsigned distance, validity has an "
+         "extra constraint unknown to it, not overridden} x attempts 1..40 x sample / sampleNear -> success implies satisfiesBounds and predicate "
          "(and clearance >= configured). Non-trivial = far-out input that was out of bounds / a distance in an extreme class / a successful "
          "valid sample under a predicate rejecting >= 50%. Distinct = consumed byte prefix.",
     technique="property-based testing of enforceBounds and samplers over generated spaces with extreme parameters; libFuzzer in thorough",
@@ -239,10 +242,12 @@ CHECKS["C01"] = dict(
 )
 CHECKS["C01"]["rule"] = (
     "Case = planner (uniform over 47 registry entries incl. RRT/RRTConnect with intermediate states, 1-level multilevel planners, 2-thread pRRT/pSBL/"
-    "CForest, AnytimePathShortening) x space {R^2..R^6, SE2, SE3, weighted R2xSO2xR1, Dubins / Reeds-Shepp for directed single-tree planners} x "
+    "CForest, AnytimePathShortening) x space {R^2..R^6, SE2, SE3, weighted R2xSO2xR1, Dubins / Reeds-Shepp for the direction-aware planners: single-tree growth from the start, RRTConnect, BiTRRT} x "
     "0..6 ball/box obstacles x scenario {normal 69%; every start invalid; every goal invalid; invalid-first among several starts and goals; "
     "non-sampleable goal region; start inside goal; start out of bounds} x goal {GoalState, GoalStates} x threshold {0.1, 1e-3, epsilon (library default), 0.5, 2.5} x "
-    "resolution x range x goal bias x seed x evaluation budget (0 or log-uniform 1..20000, scaled per planner). Oracle: status <-> pdef coherence "
+    "resolution x range x goal bias x (35%) further planner parameters from the planner's declared ParamSet (switches flipped, numeric values within a "
+    "factor of two of the default; a setter answering with an error message = clean rejection) x seed x evaluation budget (0 or log-uniform "
+    "1..4000, scaled per planner). Oracle: status <-> pdef coherence "
     "(truthful INVALID_START / INVALID_GOAL / UNRECOGNIZED_GOAL_TYPE, approximate flag and difference vs the last state), first state is a valid "
     "start, all states in bounds (raw coordinates), dense validity (invalid runs <= 2r at r/20 sampling), strict re-check of every consecutive pair "
     "with the harness's own k/n loop for tree/roadmap planners. Non-trivial = a solution whose straight start-goal motion is invalid, or an "
@@ -272,7 +277,9 @@ CHECKS["C03"]["rule"] = (
     "every solve: returned within the per-planner bound of further evaluations, status <-> pdef coherence (full on a first solve, weaker on a resume), "
     "truthful INVALID_* statuses, no empty / 1-state / half-built solution, C01 path oracle, no start/goal state of the other query in the path (or in "
     "the planner data right after clear()), resumed solves never lose an exact solution nor worsen the best one; ASan + LeakSanitizer at child exit. "
-    "Non-trivial = a solve interrupted after >= 1 evaluation and before an exact solution, followed by a resume, a clear or a query switch.")
+    "Non-trivial = a solve interrupted after >= 1 evaluation and before an exact solution, followed by a resume, a clear or a query switch. "
+    "Companion C03C (the C02 harness, 8 control planners): solve(k) [-> solve again | clear + solve]* with the C02 replay oracle after every solve "
+    "and LeakSanitizer at child exit.")
 
 CHECKS["C04"] = dict(
     src="harness/C04_costs.cpp",
@@ -344,7 +351,8 @@ CHECKS["C02"] = dict(
     rule="Case = control planner {RRT, RRT with intermediate states, SST, EST, KPIECE1, PDST, SyclopRRT, SyclopEST (grid decomposition 2..8)} x system "
          "{first-order point, unicycle on SE2 with heading wrapped in the propagator, second-order point with bounded velocities, 1-control field "
          "follower} x control bounds (asymmetric in a third of the cases) x step size 0.02..0.2 x min/max duration 1..4 / +0..16 x 0..4 obstacles x "
-         "start/goal x threshold x seed x evaluation budget 50..6000. Oracle: the harness replays every recorded control for its recorded duration "
+         "start/goal x threshold x seed x evaluation budget 50..6000 x directed control sampler with k = 1 (library default, 57%) or k = 2..12 candidate "
+         "controls. Oracle: the harness replays every recorded control for its recorded duration "
          "from the recorded state with its OWN copy of the dynamics: duration is a whole number (>=1, <= max) of steps, control inside the bounds, "
          "every propagation step valid (bounds + obstacles), result within float epsilon of the next recorded state; first state is the valid start; "
          "exact => last state satisfies the goal, approximate => flag and difference cohere; PathControl::check() agrees. Non-trivial = solution with "
@@ -382,11 +390,11 @@ CHECKS["C15"] = dict(
     src="harness/C15_informed.cpp",
     cases=dict(quick=60000, thorough=1200000),
     fuzz=dict(runs=600000, maxlen=300),
-    rule="Case = (40%) prolate-hyperspheroid level: dimension 2..8 x foci layout {axis aligned, diagonal, arbitrary; separated > 1e-6} x cost from "
+    rule="Case = (40%) prolate-hyperspheroid level: dimension 2..8 x foci layout {axis aligned, diagonal, arbitrary, generic direction at a tiny separation 3e-9..1e-2; separated > 2e-9} x cost from "
          "1.0001 d_foci to 100 d_foci: 16 surface samples must have focal-distance sum = c within 1e-9, getPhsMeasure = analytic Gamma-function "
          "volume, interior samples inside; in 16% of these cases 20000 interior samples are mapped back with the harness's own inverse affine map and "
          "radius^n must be uniform (KS D < 0.03) with the axis coordinate balanced (< 7.5 sigma); (60%) sampler level: {PathLengthDirect, Rejection} x "
-         "{R^2..R^8, SE2, SE3} x 1-2 starts x 1-3 goals (optionally near a bound) x cost {just above d, 1.01..2 d, 2..11 d, far beyond the bounds} x "
+         "{R^2..R^8, SE2, SE3} x 1-2 starts x 1-3 goals (optionally near a bound; in 16% the first goal 3e-9..1e-2 from the first start) x cost {just above d, 1.01..2 d, 2..11 d, far beyond the bounds} x "
          "optional lower bound: every successful sample is in bounds, has heuristicSolnCost < c (and >= the lower bound), the heuristic equals the "
          "recomputed focal-distance sum, and getInformedMeasure equals the analytic sum of volumes (x rotation measure) capped by the space measure. "
          "Non-trivial = thin spheroid (c < 2 d), region near a bound, >= 2 spheroids, or a uniformity test. Distinct = consumed byte prefix.",
@@ -405,7 +413,7 @@ CHECKS["C16"] = dict(
     rule="Case = manifold {sphere S^(n-1) in R^3..R^5, torus in R^3, hyperplane, sphere cut by a plane (codimension 2)} with analytic (67%) or the "
          "numeric default Jacobian x space {Projected, Atlas, TangentBundle} x tolerance 1e-7..1e-3 x delta 0.02..0.3 x lambda 1.2..5 x on-manifold pair "
          "(near: within 2 delta; independent; antipodal) built from the harness's own parameterisation x optional obstacle cap x seed. Oracle: |F(x)| <= "
-         "tolerance (harness evaluates F itself) for 6 uniform / near / Gaussian sampler outputs, 4 interpolate outputs (t in {0, 1, 0.5, uniform}) and - "
+         "tolerance (harness evaluates F itself) for 6 uniform / near / Gaussian sampler outputs (radius / sigma from delta up to 60 / 30, i.e. many times the curvature radius), 4 interpolate outputs (t in {0, 1, 0.5, uniform}) and - "
          "Projected / Atlas only - every state of a successful discreteGeodesic, whose consecutive states are <= lambda*delta apart and whose last state "
          "is within delta of the target; in 39% of the cases RRT / RRTConnect / PRM plans on top and every vertex of a returned path must satisfy the "
          "constraint and the path must start at the start. Non-trivial = pair farther apart than 5 delta, codimension 2, or a planner path with >= 3 "
@@ -426,10 +434,11 @@ CHECKS["C19"] = dict(
     rule="Part 1 (ThreadSanitizer build of the library and harness): case = operation mix {shared SpaceInformation: checkMotion + isValid on shared "
          "states; shared thread-safe GNAT: nearest / nearestK / nearestR; RNG and StateSpace construction / destruction / naming; shared "
          "ProblemDefinition: writers adding solutions while readers list them; terminate() from up to 4 other threads while RRT polls the "
-         "condition; logging through a shared handler} x 2..16 threads released together from a barrier x 20..400 operations per thread. Oracle: no "
+         "condition, which is of a generated kind {non-terminating, direct function, function evaluated every 1..40 ms by the library's helper thread, "
+         "timed with interval, or-combination of direct and periodic}; logging through a shared handler} x 2..16 threads released together from a barrier x 20..400 operations per thread. Oracle: no "
          "ThreadSanitizer report (happens-before race detection over the executed accesses), results equal the sequential answers, "
          "getCheckedMotionCount() == threads x calls with the right valid / invalid split, no lost or unsorted solution, every log message delivered, "
-         "the planner returns after terminate(). Part 2 (ASan build, companion harness C19P = the C01 harness restricted to the planners that use "
+         "every thread sees eval() true right after its own terminate() returned, the planner returns after terminate(). Part 2 (ASan build, companion harness C19P = the C01 harness restricted to the planners that use "
          "threads internally): pRRT, pSBL, CForest with 2..6 threads, PRM / PRMstar / SPARS / SPARStwo (solution-checking thread), "
          "AnytimePathShortening, on generated C01 problems -> the complete C01 oracle on what is returned, no ASan report, no hang. Non-trivial "
          "= (part 1) at least two threads demonstrably overlapped (a thread entered while another was active); (part 2) as C01.",
